@@ -198,6 +198,18 @@ Family(const std::string &f, int lk)
     Multisets(Scripts(plain, 1), 2, 0, cur, singles);
     for (auto &sg : singles)
       for (auto &t : two) out.push_back(sg + " | " + t);
+  } else if (f == "fifo4") {  // a holder, a waiting X/SIX, a shared request behind it, and a later X/SIX moving the tail
+    for (auto &pr : {"S | X | S | X", "S | X | S | SIX", "S | SIX | S | X", "X | X | S | X", "SIX | X | S | X", "S | X | SIX | X"}) {
+      std::string t = pr, acc;
+      size_t pos = 0;
+      Strs th;
+      while ((pos = t.find(" | ")) != std::string::npos) {
+        th.push_back(Sec(t.substr(0, pos)));
+        t = t.substr(pos + 3);
+      }
+      th.push_back(Sec(t));
+      out.push_back(Join(th));
+    }
   } else if (f == "p4x1") {
     add(Programs(base, 4, 1));
   } else if (f == "conv2") {
